@@ -13,6 +13,9 @@ Row clauses for a yielded row R of node n called with (sigma, f), m := R (+) sig
   R4 filter        filt(n) and not f  ->  not lbl       filt(n) := truth_node(n) or the library's own position test
                    `n is n._conditions_root_ or isinstance(n._parent_, LogicalOperator)` evaluated when n is called
   R5 own value     is_value(n)  ->  nid(n) in dom R;   Binds(n) subset dom m  (ids every row must bind)
+  R7 row objects   a dict this function allocated itself is yielded at most once (never one that was created before the
+                   current iteration of an enclosing loop): consumers may keep rows (itertools.product in the
+                   constructor-argument evaluation does)
   R6 self-contained  the row repeats every entry of sigma that lies in the node's own subtree
 Stream clauses
   NE non-empty     nid(n) in dom sigma and not lab(n)  ->  the stream has at least one row  (a bound value node passes
@@ -264,6 +267,8 @@ class EvalContract(LibModel):
     def sigma_of(self, eng, st, stream):
         s = stream.data['sigma']
         if isinstance(s, D):
+            # a dict handed to a callee as its sigma may come back as a row (the callee yields sigma itself)
+            st.ghost['sigma_like'] = st.ghost.get('sigma_like', frozenset()) | {s.ref}
             return st.dicts[s.ref], s.ref
         if isinstance(s, C) and s.v is None:
             return Z.ZMap.empty(), None
@@ -373,6 +378,9 @@ class EvalContract(LibModel):
                 st.dicts[ref] = newc
                 del extra_refs[ref]
         st.ghost['loop_entry'] = entries
+        # dict objects that exist when an iteration of this loop starts (R7: such a dict, if allocated by this function,
+        # must not be yielded inside the loop - it would be yielded again, mutated, by the next iteration)
+        st.ghost['iter_pre_refs'] = frozenset(st.dicts.keys())
         for ref, kinds in extra_refs.items():
             if kinds == {'rely'} and ref not in syn:
                 new = Z.ZMap.fresh('rl')
@@ -891,6 +899,9 @@ class EvalContract(LibModel):
                        envs=[rho], line=node.lineno)
             eng.oblige(st, f"{tag}/R4-filter", z3.Implies(z3.And(st.ghost['filt_self'], z3.Not(f)), z3.Not(lbl)), line=node.lineno)
             eng.oblige(st, f"{tag}/R5-own-id", z3.Implies(Z.is_value(n), row.contains(Z.nid(n))), line=node.lineno)
+            stale = (v.ref in st.ghost.get('own_refs', ()) and v.ref in st.ghost.get('iter_pre_refs', ())
+                     and v.ref not in st.ghost.get('sigma_like', ()))
+            eng.oblige(st, f"{tag}/R7-row-object-is-not-reused", z3.BoolVal(not stale), line=node.lineno)
             if not self.r6_waived(eng, st, ordinal, node):
                 eng.oblige(st, f"{tag}/R6-self-contained",
                            z3.Map(Z.IMP_D, z3.Map(Z.AND_D, sig.has, Z.SubIds(n)), row.has) == TRUE_IDS, line=node.lineno)
